@@ -714,6 +714,12 @@ def mk_ite(c, a, b):
             b = assume(b, {c.key: False})
         if a.key == b.key:
             return a
+    # q if q > 0 else 0  ==  max(q, 0)     (and  0 if q < 0 else q)
+    if _numeric_like(a) and _numeric_like(b):
+        if b.const() == 0 and c.key == mk_cmp('<', -a, Term.num(0)).key:
+            return mk_call('max', [a, Term.num(0)])
+        if a.const() == 0 and c.key == mk_cmp('<', b, Term.num(0)).key:
+            return mk_call('max', [b, Term.num(0)])
     # L.append(x) on one branch, L.append(y) on the other  ==  L.append(x if c else y)
     xa, xb = a.single_atom(), b.single_atom()
     if xa is not None and xb is not None and xa.kind == 'call' and xb.kind == 'call' and xa.args[0] == 'mut.append' \
@@ -1423,6 +1429,10 @@ def mk_sub(base, idx):
         it_ = _item_of_elementwise(base, idx)
         if it_ is not None:
             return it_
+    if ia_ is not None and ia_.kind == 'slice' and _isnone(ia_.args[1]) and _isnone(ia_.args[2]) and not _isnone(ia_.args[0]) \
+            and ia_.args[0].const() is None and _numeric_like(ia_.args[0]) and is_positive(-ia_.args[0]):
+        # x[-L:] with L > 0 is the last L items, or all of x when it has fewer: x[max(len(x) - L, 0):]
+        return mk_sub(base, mk_slice(mk_call('max', [mk_call('len', [base]) + ia_.args[0], Term.num(0)]), NONE, NONE))
     at = base.single_atom()
     if at is not None and at.kind in ('replicate', 'store', 'ite') and _replicate_len(base) is not None:
         ia2_ = idx.single_atom()
